@@ -70,7 +70,7 @@ impl Default for GenCfg {
 pub const PAD_LENS: &[usize] = &[7, 8, 15, 16, 17, 31, 32, 33, 63, 64, 65, 127, 128, 129, 255, 256, 257, 1000, 4097];
 /// characters that are rare in test data: multi-byte (2, 3, 4 bytes), case pairs outside ASCII,
 /// characters whose lower / upper case has another length, NUL, CR, tab, trailing blanks
-pub const SPICE: &[&str] = &["\u{e9}", "\u{c9}", "\u{df}", "\u{130}", "\u{212a}", "\u{17f}", "\u{4e2d}", "\u{1f600}", "\u{0}", "\r\n", "\t", " ", "  ", "\u{a0}", "\u{2028}", "\u{301}", "\\", "\"", "'", "%", "[", "("];
+pub const SPICE: &[&str] = &["\u{e9}", "\u{c9}", "\u{df}", "\u{130}", "\u{212a}", "\u{17f}", "\u{4e2d}", "\u{1f600}", "\u{0}", "\r\n", "\t", " ", "  ", "\u{a0}", "\u{2028}", "\u{301}", "\\", "\"", "'", "%", "[", "(", "*", "*", "?", "i"];
 
 pub fn pad(rng: &mut Rng, n: usize) -> String {
     let unit: &str = *rng.pick(&["-", "z", "ab", "fo", "\u{e9}", "Z9", "ba"]);
@@ -137,10 +137,15 @@ pub fn gen_str_pattern(rng: &mut Rng, cfg: &GenCfg) -> String {
                 5 => format!(">{}", rng.below(9)),
                 _ => needle,
             };
-            if rng.chance(50) {
-                format!("\"{}\"", content)
-            } else {
-                format!("'{}'", content)
+            match rng.below(10) {
+                0..=3 => format!("\"{}\"", content),
+                4..=7 => format!("'{}'", content),
+                // quotes that are not a pair are ordinary characters
+                8 => {
+                    let (a, b) = *rng.pick(&[("\"", "'"), ("'", "\""), ("\"", ""), ("", "'"), ("'", ""), ("", "\"")]);
+                    format!("{}{}{}", a, content, b)
+                }
+                _ => format!("{}{}{}", rng.pick(&["\"", "'"]), content, rng.pick(&["\"*", "'*", "\"x", "'\""])),
             }
         }
     };
@@ -624,7 +629,7 @@ pub fn junk_scalar(rng: &mut Rng) -> DVal {
         1 => DVal::Bool(rng.chance(50)),
         2 => DVal::UInt(rng.below(4) as u64),
         3 => DVal::Int(-(rng.below(4) as i64) - 1),
-        4 => DVal::Float(*rng.pick(&[0.0, 1.0, 1.5, -0.5, f64::NAN, f64::INFINITY, 1e300])),
+        4 => DVal::Float(*rng.pick(&[0.0, -0.0, 1.0, 1.5, -0.5, f64::NAN, f64::INFINITY, 1e300])),
         5 => DVal::Str(rng.pick(&["true", "false", "1", "0", "5", "1.5", "-1", "", "null"]).to_string()),
         6 => DVal::UInt(*rng.pick(&[u64::MAX, i64::MAX as u64, i64::MAX as u64 + 1, 7045])),
         _ => {
@@ -823,6 +828,40 @@ fn place(obj: &mut DVal, key: &str, v: DVal, rng: &mut Rng) {
     }
 }
 
+/// a field name that a sloppy lookup could confuse with `name` (another case, `_` for `-`, a blank
+/// at the end, a longer or shorter name); None when nothing different comes out
+pub fn lookalike(rng: &mut Rng, name: &str) -> Option<String> {
+    // only the last path segment is altered, and never an index
+    let (head, last) = match name.rfind('.') {
+        Some(i) => (&name[..=i], &name[i + 1..]),
+        None => ("", name),
+    };
+    let (base, idx) = match last.find('[') {
+        Some(i) => (&last[..i], &last[i..]),
+        None => (last, ""),
+    };
+    let alt = match rng.below(8) {
+        0 => base.to_ascii_uppercase(),
+        1 => base.to_ascii_lowercase(),
+        2 => {
+            let mut c = base.chars();
+            match c.next() {
+                Some(f) => format!("{}{}", if f.is_ascii_lowercase() { f.to_ascii_uppercase() } else { f.to_ascii_lowercase() }, c.as_str()),
+                None => String::new(),
+            }
+        }
+        3 => base.replace('_', "-"),
+        4 => base.replace('-', "_").replace(' ', "_"),
+        5 => format!("{} ", base),
+        6 => format!("{}{}", base, base.chars().last().unwrap_or('x')),
+        _ => base.trim().to_string(),
+    };
+    if alt == base || alt.is_empty() || alt.contains('.') || alt.contains('[') {
+        return None;
+    }
+    Some(format!("{}{}{}", head, alt, idx))
+}
+
 pub fn gen_doc(rng: &mut Rng, leaves: &[Leaf]) -> DVal {
     let mut doc = DVal::Obj(vec![]);
     let mut order: Vec<usize> = (0..leaves.len()).collect();
@@ -856,7 +895,9 @@ pub fn gen_doc(rng: &mut Rng, leaves: &[Leaf]) -> DVal {
             };
         }
         if let Some(t) = target {
-            place(t, &leaf.field, v, rng);
+            // now and then the value sits under a look-alike name: the addressed field is absent
+            let name = if rng.chance(3) { lookalike(rng, &leaf.field).unwrap_or(leaf.field.clone()) } else { leaf.field.clone() };
+            place(t, &name, v, rng);
         }
     }
     for _ in 0..rng.below(3) {
